@@ -551,6 +551,15 @@ fn t_bytes(win: bool, s: &[u8], a: &[u8]) -> Vec<String> {
             t.push(wq_partial_bytes(&s));
             extras_bytes!(t, p, WindowsPathBuf::from(s.as_slice()));
             t.push(format!("x.with_capacity {}", { let mut b = WindowsPathBuf::with_capacity(9); b.push(p); hex(b.as_bytes()) }));
+            {
+                // the mixed-type comparisons with the raw argument on either side (impl_cmp_bytes!)
+                let raw: &[u8] = a.as_slice();
+                let owned: Vec<u8> = raw.to_vec();
+                let pb = p.to_path_buf();
+                t.push(format!("x.cmp-raw {:?} {:?} {:?} {:?} {:?} {:?} {} {} {} {}",
+                    PartialOrd::partial_cmp(p, raw), PartialOrd::partial_cmp(raw, p), PartialOrd::partial_cmp(&pb, raw), PartialOrd::partial_cmp(raw, &pb),
+                    PartialOrd::partial_cmp(&pb, &owned), PartialOrd::partial_cmp(&owned, &pb), *p == *raw, *raw == *p, pb == owned, owned == pb));
+            }
             t.push(format!("x.try_from comp={:?} prefix={:?} prefix-comp={:?}",
                 WindowsComponent::try_from(s.as_slice()).ok().map(|c| comp_line_w(&c)),
                 WindowsPrefix::try_from(s.as_slice()).ok().map(|k| format!("{:?}", kind_of(&k))),
@@ -570,6 +579,15 @@ fn t_bytes(win: bool, s: &[u8], a: &[u8]) -> Vec<String> {
             t.push(format!("to-windows {} {:?}", hex(p.with_windows_encoding().as_bytes()), p.with_windows_encoding_checked().map(|x| hex(x.as_bytes()))));
             extras_bytes!(t, p, UnixPathBuf::from(s.as_slice()));
             t.push(format!("x.with_capacity {}", { let mut b = UnixPathBuf::with_capacity(9); b.push(p); hex(b.as_bytes()) }));
+            {
+                // the mixed-type comparisons with the raw argument on either side (impl_cmp_bytes!)
+                let raw: &[u8] = a.as_slice();
+                let owned: Vec<u8> = raw.to_vec();
+                let pb = p.to_path_buf();
+                t.push(format!("x.cmp-raw {:?} {:?} {:?} {:?} {:?} {:?} {} {} {} {}",
+                    PartialOrd::partial_cmp(p, raw), PartialOrd::partial_cmp(raw, p), PartialOrd::partial_cmp(&pb, raw), PartialOrd::partial_cmp(raw, &pb),
+                    PartialOrd::partial_cmp(&pb, &owned), PartialOrd::partial_cmp(&owned, &pb), *p == *raw, *raw == *p, pb == owned, owned == pb));
+            }
             t.push(format!("x.try_from comp={:?}", UnixComponent::try_from(s.as_slice()).ok().map(|c| comp_line_u(&c))));
         }
         t
@@ -599,6 +617,14 @@ fn t_utf8(win: bool, s: &str, a: &str) -> Vec<String> {
             t.push(wq_partial_utf8(&s));
             extras_utf8!(t, p, Utf8WindowsPathBuf::from(s.as_str()));
             t.push(format!("x.with_capacity {}", { let mut b = Utf8WindowsPathBuf::with_capacity(9); b.push(p); hex(b.as_str().as_bytes()) }));
+            {
+                let raw: &str = a.as_str();
+                let owned: String = raw.to_string();
+                let pb = p.to_path_buf();
+                t.push(format!("x.cmp-raw {:?} {:?} {:?} {:?} {:?} {:?} {} {} {} {}",
+                    PartialOrd::partial_cmp(p, raw), PartialOrd::partial_cmp(raw, p), PartialOrd::partial_cmp(&pb, raw), PartialOrd::partial_cmp(raw, &pb),
+                    PartialOrd::partial_cmp(&pb, &owned), PartialOrd::partial_cmp(&owned, &pb), *p == *raw, *raw == *p, pb == owned, owned == pb));
+            }
             t.push(format!("x.try_from comp={:?} prefix={:?} prefix-comp={:?}",
                 Utf8WindowsComponent::try_from(s.as_str()).ok().map(|c| comp_line_w8(&c)),
                 Utf8WindowsPrefix::try_from(s.as_str()).ok().map(|k| format!("{:?}", kind_of8(&k))),
@@ -618,6 +644,14 @@ fn t_utf8(win: bool, s: &str, a: &str) -> Vec<String> {
             t.push(format!("to-windows {} {:?}", hex(&p.with_windows_encoding().tob()), p.with_windows_encoding_checked().map(|x| hex(&x.tob()))));
             extras_utf8!(t, p, Utf8UnixPathBuf::from(s.as_str()));
             t.push(format!("x.with_capacity {}", { let mut b = Utf8UnixPathBuf::with_capacity(9); b.push(p); hex(b.as_str().as_bytes()) }));
+            {
+                let raw: &str = a.as_str();
+                let owned: String = raw.to_string();
+                let pb = p.to_path_buf();
+                t.push(format!("x.cmp-raw {:?} {:?} {:?} {:?} {:?} {:?} {} {} {} {}",
+                    PartialOrd::partial_cmp(p, raw), PartialOrd::partial_cmp(raw, p), PartialOrd::partial_cmp(&pb, raw), PartialOrd::partial_cmp(raw, &pb),
+                    PartialOrd::partial_cmp(&pb, &owned), PartialOrd::partial_cmp(&owned, &pb), *p == *raw, *raw == *p, pb == owned, owned == pb));
+            }
             t.push(format!("x.try_from comp={:?}", Utf8UnixComponent::try_from(s.as_str()).ok().map(|c| comp_line_u8(&c))));
         }
         t
